@@ -52,7 +52,9 @@ const (
 	numC17Styles
 )
 
-func (s c17Style) String() string { return [...]string{"compact", "indented", "blanks around separators", "all escapes forced"}[s] }
+func (s c17Style) String() string {
+	return [...]string{"compact", "indented", "blanks around separators", "all escapes forced"}[s]
+}
 
 func jsonString(s string, escapeAll bool) string {
 	if !escapeAll {
@@ -518,7 +520,7 @@ func init() {
 	core.Register(&core.Check{
 		ID:    "C17",
 		Level: "exploration",
-		Rule: "(a) JSON documents: every string of length <=2 (thorough <=3) over 18 characters (quotes, backslash, slash, separators, brackets, $, newline, tab, a control character, a 2-byte and a 4-byte rune), 16 number literals around the 64-bit boundaries, literals, and arrays/objects (<=2 members, depth<=2) over a reduced leaf set, each rendered compact, indented, with blanks around every separator and with all escapes forced (\\uXXXX incl. surrogate pairs, \\/), must parse to the data encoding/json decodes (numbers by value); (b) every string of length <=4 (thorough <=5) over the 14 grammar characters under all 32 parse.Config combinations must agree with the reference parser flagsyn (the 8 invalid combinations must be rejected); (c) 20 literal cases of the documented switches; non-trivial = every compared document / non-empty string",
+		Rule:  "(a) JSON documents: every string of length <=2 (thorough <=3) over 18 characters (quotes, backslash, slash, separators, brackets, $, newline, tab, a control character, a 2-byte and a 4-byte rune), 16 number literals around the 64-bit boundaries, literals, and arrays/objects (<=2 members, depth<=2) over a reduced leaf set, each rendered compact, indented, with blanks around every separator and with all escapes forced (\\uXXXX incl. surrogate pairs, \\/), must parse to the data encoding/json decodes (numbers by value); (b) every string of length <=4 (thorough <=5) over the 14 grammar characters under all 32 parse.Config combinations must agree with the reference parser flagsyn (the 8 invalid combinations must be rejected); (c) 20 literal cases of the documented switches; non-trivial = every compared document / non-empty string",
 		Assumptions: []string{
 			"empty array/object == nil as the existing tests fix it; integral floats equal the same integers",
 			"the reference parser encodes: disabled bracket/quote characters are ordinary characters, IgnoreCommas removes the top-level comma list of unquoted text (after a quoted string or bracketed value a comma still separates)",
